@@ -11,7 +11,9 @@
 #include "stubs.h"
 #define C_BUFFER_HARNESS_SUPPORT
 #define C_BUFFER_STO_REFUSING
+#ifndef V_EXACT_FOAM_NODES
 #define V_ALLOC_FOAM_NODES
+#endif
 #include "c_buffer.h"
 #include "c_foam_codec.h"
 
@@ -44,6 +46,44 @@ void h_foamSIntReduce(void)
 #endif
 	CHECK("foamSIntReduce: a value that fits is returned as the same node", SPEC_FITS_SINT4(v) ? r == f : r != f);
 	CHECK("foamSIntReduce: the argument node is not modified", foamTag(f) == FOAM_SInt && f->foamSInt.SIntData == v && foamArgc(f) == 1);
+	VREACH();
+}
+
+/* foamTagFormat (the format the writer packs into the tag byte): every compressible integer field ('i' in the
+ * node's argf) must be inside the domain of the format chosen for the node, because foamToBuffer writes all of
+ * them with FOAM_PUT_INT(format, ...) and the reader gets back only what that format can carry */
+#ifndef TAGFMT_TAG
+#define TAGFMT_TAG FOAM_EElt
+#endif
+void h_foamTagFormat(void)
+{
+	INPUT(long, f0); INPUT(long, f1); INPUT(long, f2); INPUT(long, f3);
+	INPUT(int, gi);			/* ghost: one of the node's slots */
+	long fv[4]; int fmt, argc, fi, si; String argf;
+	V_FOAM_READY();
+	fv[0] = f0; fv[1] = f1; fv[2] = f2; fv[3] = f3;
+	argc = foamInfo(TAGFMT_TAG).argc;
+	argf = foamInfo(TAGFMT_TAG).argf;
+	ASSUME(argc >= 1 && argc <= 4 && gi >= 0 && gi < argc);
+	/* the node is written as ONE whole-struct assignment into an exact-size object, so that symbolic execution sees
+	 * the tag as a constant and follows only this tag's branch of foamTagFormat */
+	struct foamGen sg; Foam f = (Foam) malloc(sizeof sg);
+	ASSUME(f != 0);
+	memset(&sg, 0, sizeof sg);
+	sg.hdr.tag = TAGFMT_TAG; sg.hdr.argc = argc;
+	for (si = 0; si < 4; si++) {
+		/* integer fields: indices, levels, format numbers -- non-negative ints as genfoam produces them */
+		ASSUME(fv[si] >= 0 && fv[si] <= 0x7fffffffL);
+		sg.argv[si].data = fv[si];
+	}
+	f->foamGen = sg;
+	fmt = foamTagFormat(f);
+	CHECK("foamTagFormat: a format the tag byte can carry", fmt >= 0 && FOAM_FORMAT_PUT(TAGFMT_TAG, fmt) <= 255);
+	if (argf[gi] == 'i')
+		CHECK("foamTagFormat: every integer field of the node is inside the chosen format's domain", SPEC_FMT_DOMAIN(fmt, fv[gi]));
+#ifdef CANARY_tagfmt
+	CHECK("canary: the one-byte format is always enough", fmt != 0);
+#endif
 	VREACH();
 }
 
